@@ -7,7 +7,7 @@
 //! (`./check C01` runs the dbg build first, then release).
 
 use crate::core::*;
-use crate::props::c04::{SIGMA_DATA, SIGMA_LEX};
+use crate::props::c04::SIGMA_LEX;
 use crate::rig::*;
 use scpi::parser::expression::channel_list::{self, ChannelList};
 use scpi::parser::expression::numeric_list::{self, NumericList};
@@ -285,7 +285,7 @@ pub fn run(ctx: &'static Ctx) -> i32 {
 
     // (b) contextual sweeps
     let m = ctx.tier.pick(4u32, 5u32);
-    let per = count_upto(SIGMA_DATA.len() as u64, m);
+    let per = count_upto(SIGMA_LEX.len() as u64, m);
     let total_b = per * PREFIXES.len() as u64 * 2;
     let accs = par_sweep(
         ctx,
@@ -302,7 +302,7 @@ pub fn run(ctx: &'static Ctx) -> i32 {
             let p = PREFIXES[(j / per) as usize].as_bytes();
             let mut buf = [0u8; 32];
             buf[..p.len()].copy_from_slice(p);
-            let l = nth_string(SIGMA_DATA, j % per, &mut buf[p.len()..]);
+            let l = nth_string(SIGMA_LEX, j % per, &mut buf[p.len()..]);
             let msg = &buf[..p.len() + l];
             // tree T2 for the default/suffix prefixes, T3 for the chain; plan P1 (convert all) and P4
             let t = if p.starts_with(b"A:E:H") { 2 } else { 1 };
@@ -361,7 +361,7 @@ pub fn run(ctx: &'static Ctx) -> i32 {
     c.insert("evaluations_this_profile".into(), json!(tot.runs));
     c.insert("other_profile_run".into(), other_profile);
     c.insert("distinct_nontrivial".into(), json!(tot.errs + tot.handler_calls.min(tot.ok)));
-    c.insert("rule".into(), json!(format!("(a) every string of length <= {n} over {} class-representative bytes ({nstr} strings) x 3 tree shapes (single leaf; defaults + suffixed siblings + anonymous default leaf + common command; depth-3 chain) x 5 handler plans (pull nothing; pull all and apply all {} typed conversions incl. list iteration, spec walks and tuple conversions; one required; two optional; required+optional with header/float/block response) = {a_runs} runs, plus the bare Tokenizer on every string; (b) {} prefixes x every continuation of length <= {m} over the data alphabet x 2 plans = {b_runs} runs; (c) every string of length <= {k} over `12!,:-+.E'\" a` as channel-list (`@w`) and numeric-list body, iterated to the first error with spec walks and conversions = {c_runs} cases. Oracle: no panic (caught per case), no hang (watchdog), no -300 'Internal parser error', iterators stop within len+2 steps; process death is reported by ./check from the per-chunk journal. Distinct non-trivial = runs ending in an error + successful runs that entered a handler", SIGMA_LEX.len(), N_CONVERSIONS, PREFIXES.len())));
+    c.insert("rule".into(), json!(format!("(a) every string of length <= {n} over {} class-representative bytes ({nstr} strings) x 3 tree shapes (single leaf; defaults + suffixed siblings + anonymous default leaf + common command; depth-3 chain) x 5 handler plans (pull nothing; pull all and apply all {} typed conversions incl. list iteration, spec walks and tuple conversions; one required; two optional; required+optional with header/float/block response) = {a_runs} runs, plus the bare Tokenizer on every string; (b) {} prefixes x every continuation of length <= {m} over the same full alphabet (so that header bytes such as `*` `:` `?` also appear after data separators) x 2 plans = {b_runs} runs; (c) every string of length <= {k} over `12!,:-+.E'\" a` as channel-list (`@w`) and numeric-list body, iterated to the first error with spec walks and conversions = {c_runs} cases. Oracle: no panic (caught per case), no hang (watchdog), no -300 'Internal parser error', iterators stop within len+2 steps; process death is reported by ./check from the per-chunk journal. Distinct non-trivial = runs ending in an error + successful runs that entered a handler", SIGMA_LEX.len(), N_CONVERSIONS, PREFIXES.len())));
     c.insert("exhaustive".into(), json!(true));
     c.insert("runs_ok".into(), json!(tot.ok));
     c.insert("runs_err".into(), json!(tot.errs));
